@@ -471,7 +471,8 @@ def run_stream(ctx, exe, lines, what, rep, prefix=()):
 def run(ctx):
     rng = ctx.rng
     ctx.regen(["DctConst", "C07Ctl"])
-    ctx.prove()
+    # proofs/DctAccInterval.v: the numeric fact matrix_accuracy_fact by Interval + closed corollaries (coqc only, see design)
+    ctx.prove(extra_targets=["proofs/DctAccInterval.vo"])
     drv = ctx.model_driver()
     flavours = ["simd", "plain"] + (["asan"] if ctx.thorough() else [])
     eps = {"fdct8": 0.0, "idct8": 0.0, "fdct12": 0.0, "idct12": 0.0, "excess": -1e9, "ratio": 0.0}
@@ -701,5 +702,8 @@ def run(ctx):
     ctx.assume += ["correspondence is differential testing of the hand model against the real functions; it supports the tie, not the theorems",
                    "per-block RMS bound of the statement evaluated with c = %s and allowance = %s sample levels per precision (see design/C07.md)" % (C_COEF, ALLOWANCE),
                    "edge blocks: the squared error is summed over the samples that exist and divided by 64"]
+    ctx.assume.append("matrix_accuracy_fact (64 inequalities |Mz/2^13 - sqrt 8 * dctA| <= 3/16384) is proved by the Interval tactic in "
+                      "proofs/DctAccInterval.v, compiled by coqc on every run but not re-checked by coqchk; C07_fdct_accuracy and "
+                      "C07_rms_bound_forward_partial take it as an explicit hypothesis")
     ctx.trusted += ["tools/gen_DctConst.py (regular-expression reader of jfdctint.c, jidctint.c, jcdctmgr.c, jcparam.c, jdct.h)",
                     "harness/c07.c, harness/c07_api.c and the DQT/SOF parser + float DCT of checks/C07.py (oracle side)"]
